@@ -144,9 +144,8 @@ package aescbcaead
 
 // Open: hh is the keyed hash built for this call, exp the expected (truncated) tag it produced. The tag comparison
 // precedes the first write to dst and every call into AES/CBC/unpadding (at-asserts C03.cbchmac.open.tagfirst.*).
-// The two nopanic obligations on NewCBCDecrypter / CryptBlocks fail on the unchanged code: genuine defect (C07).
-// C03.cbchmac.open.oneblock fails on the unchanged code: an authenticated EMPTY CBC body (which Seal never produces)
-// is accepted as an empty plaintext because UnpadPKCS7 accepts the empty buffer (low severity, needs the key).
+// Acceptance (result1 == nil) implies that the MAC was computed with macKey over AD ‖ nonce ‖ ciphertext ‖ AL and
+// matched; malformed sizes (nonce not one block, body empty or not whole blocks) are rejected with an error.
 //@ func (*aesCBCAEAD).Open
 //@   tags C03 C07 C17
 //@   ghost hh iface
@@ -156,15 +155,16 @@ package aescbcaead
 //@   modifies dst[len(dst):cap(dst)]
 //@   ensures [C03.cbchmac.open.noplain] result1 != nil ==> result == nil
 //@   ensures [C03.cbchmac.open.short] len(ciphertext) < aead.tagSize ==> result1 != nil
+//@   ensures [C03.cbchmac.open.sizes] (len(nonce) != 16 || (len(ciphertext) - aead.tagSize) % 16 != 0) ==> result1 != nil
 //@   ensures [C03.cbchmac.open.reject] (len(ciphertext) >= aead.tagSize
 //@        && !(forall k :: 0 <= k && k < aead.tagSize ==> old(ciphertext[len(ciphertext) - aead.tagSize + k]) == exp[k])) ==> (result1 != nil && result == nil)
-//@   ensures [C03.cbchmac.open.mackey] len(ciphertext) >= aead.tagSize ==> (fresh(hh) && hh.hkeylen == len(aead.macKey)
+//@   ensures [C03.cbchmac.open.mackey] result1 == nil ==> (fresh(hh) && hh.hkeylen == len(aead.macKey)
 //@        && (forall k :: 0 <= k && k < len(aead.macKey) ==> old(aead.macKey[k]) == hh.hkey[k]))
-//@   ensures [C03.cbchmac.open.maclen] len(ciphertext) >= aead.tagSize ==> hh.wpos == len(additionalData) + len(nonce) + (len(ciphertext) - aead.tagSize) + 8
-//@   ensures [C03.cbchmac.open.mac.ad] len(ciphertext) >= aead.tagSize ==> (forall k :: 0 <= k && k < len(additionalData) ==> old(additionalData[k]) == hh.wlog[k])
-//@   ensures [C03.cbchmac.open.mac.iv] len(ciphertext) >= aead.tagSize ==> (forall k :: 0 <= k && k < len(nonce) ==> old(nonce[k]) == hh.wlog[len(additionalData) + k])
-//@   ensures [C03.cbchmac.open.mac.ct] len(ciphertext) >= aead.tagSize ==> (forall k :: 0 <= k && k < len(ciphertext) - aead.tagSize ==> old(ciphertext[k]) == hh.wlog[len(additionalData) + len(nonce) + k])
-//@   ensures [C03.cbchmac.open.mac.tag] len(ciphertext) >= aead.tagSize ==> (explen == aead.tagSize
+//@   ensures [C03.cbchmac.open.maclen] result1 == nil ==> hh.wpos == len(additionalData) + len(nonce) + (len(ciphertext) - aead.tagSize) + 8
+//@   ensures [C03.cbchmac.open.mac.ad] result1 == nil ==> (forall k :: 0 <= k && k < len(additionalData) ==> old(additionalData[k]) == hh.wlog[k])
+//@   ensures [C03.cbchmac.open.mac.iv] result1 == nil ==> (forall k :: 0 <= k && k < len(nonce) ==> old(nonce[k]) == hh.wlog[len(additionalData) + k])
+//@   ensures [C03.cbchmac.open.mac.ct] result1 == nil ==> (forall k :: 0 <= k && k < len(ciphertext) - aead.tagSize ==> old(ciphertext[k]) == hh.wlog[len(additionalData) + len(nonce) + k])
+//@   ensures [C03.cbchmac.open.mac.tag] result1 == nil ==> (explen == aead.tagSize
 //@        && (forall k :: 0 <= k && k < aead.tagSize ==> exp[k] == digestbyte(hh.hkey, hh.hkeylen, hh.wlog, hh.wpos, k)))
 //@   ensures [C03.cbchmac.open.accept] result1 == nil ==> (forall k :: 0 <= k && k < aead.tagSize ==> old(ciphertext[len(ciphertext) - aead.tagSize + k]) == exp[k])
 //@   ensures [C03.cbchmac.open.len] result1 == nil ==> (len(dst) <= len(result) && len(result) <= len(dst) + len(ciphertext) - aead.tagSize)
@@ -172,7 +172,7 @@ package aescbcaead
 //@   ensures [C03.cbchmac.open.padded] result1 == nil ==> len(result) < len(dst) + len(ciphertext) - aead.tagSize   // at least one PKCS#7 byte was removed (RFC 7518 §5.2.2.2 step 4)
 //@   ensures [C03.cbchmac.open.dst] result1 == nil ==> (cap(dst) >= len(dst) + len(ciphertext) - aead.tagSize ? result == dst[0:len(result)] : fresh(result))
 //@   ensures [C03.cbchmac.open.prefix] result1 == nil ==> (forall k :: 0 <= k && k < len(dst) ==> result[k] == old(dst[k]))
-//@   at call New#1 ghost hh = res0
+//@   at call hmac.New#0 ghost hh = res0
 //@   at call hmacTag#0 ghost exp = lambda j :: res0[j]
 //@   at call hmacTag#0 ghost explen = len(res0)
 //@   at before call NewCipher#0 assert [C03.cbchmac.open.tagfirst.aes] len(ciphertextTag) == aead.tagSize && (forall k :: 0 <= k && k < aead.tagSize ==> ciphertextTag[k] == exp[k])
